@@ -35,7 +35,7 @@ EmbSpec(d, p) == LET N == (d \div 10) * (d % 10)  base == RDiv(RSub(ROne, p), RF
     pt |-> <<<<RAdd(base, half), 3>>, <<RSub(base, half), 1>>, <<base, N - 4>>>>]
 SpecOf(c) == CASE c.fam = "EmbBell" -> EmbSpec(c.d, c.a) [] c.fam = "Werner" -> WernerSpec(c.d, c.a) [] c.fam = "Isotropic" -> IsoSpec(c.d, c.a) [] c.fam = "Bell" -> BellSpec(c.w) [] OTHER -> DiagSpec(c.w)
 RMin(a, b) == IF RLess(a, b) THEN a ELSE b
-Init == cfg \in Configs /\ \E s \in {SpecOf(cfg)} : obs = [N |-> NOf(s.dm), norm2 |-> Norm2(s.dm), dm2 |-> BetaU2(s.dm), pt2 |-> RMin(BetaU2(s.dm), BetaU2(s.pt))]
+Init == cfg \in Configs /\ \E s \in {SpecOf(cfg)} : obs = [N |-> NOf(s.dm), norm2 |-> Norm2(s.dm), dm2 |-> BetaU2(s.dm), pt2 |-> RMin(BetaU2(s.dm), BetaU2(s.pt)), ptonly2 |-> BetaU2(s.pt)]      \* ptonly2: threshold of the partial transpose alone (within_dm=False)
 Next == UNCHANGED <<cfg, obs>>
 Spec == Init /\ [][Next]_<<cfg, obs>>
 \* both spectra describe trace-one operators of the same Frobenius norm, and the PPT boundary lies inside the state space
